@@ -11,6 +11,12 @@ def _jobs():
     # AES-NI without PCLMULQDQ: the table-driven GCM over assembly batches is a separate AEAD type
     out.append(J("c20.rounds", configs=["noclmul"], variant="race", shards=(3, 8), floor=10, procs=8, deadline="120s"))
     out.append(J("c20.rounds", configs=["purego"], variant="race-purego", shards=(2, 8), floor=10, procs=8, deadline="120s"))
+    # first-use bursts WITHOUT the race detector (result comparison only): a trial costs a tenth and the goroutines leave the
+    # barrier within nanoseconds of each other - for one-shot transitions with windows far below a microsecond, which the
+    # detector cannot see anyway when the writer is assembly and the flag atomic. c20.rounds has no job in these variants,
+    # so the driver adds no mixed-order jobs (c20.rounds must make the first library calls of its process).
+    out.append(J("c20.bursts", configs=["avx2"], variant="asm", shards=(2, 4), floor=5, deadline="120s"))
+    out.append(J("c20.bursts", configs=["noaes", "noclmul"], variant="asm", shards=(1, 4), floor=5, deadline="120s"))
     return out
 
 
@@ -32,10 +38,35 @@ PLAN = dict(
          "and intermediate with DNS, e-mail (host and exact mailbox), URI and IP name constraints, permitted and excluded, with "
          "and without leading period, critical; EKU-restricted intermediate; path length limits; the intermediate cross-signed "
          "by the first root (two candidate chains); seven leaves with SANs of every kind, one permitted and one violating "
-         "leaf per constraint kind and for the EKU set), 4/8/16 goroutines released from a barrier, each executing a seeded list of 3-8 of 117 "
-         "operations with scripted randomness, then the same lists sequentially on a second cold object set; results must "
-         "be identical, round-trip laws of composite operations must hold, every goroutine must finish (bounded progress), "
-         "and the race detector must be silent. Operations: first and steady use of the shared objects (sign, verify, "
+         "leaf per constraint kind and for the EKU set; a leaf of an unknown issuer and a leaf that names a shared intermediate as issuer but is "
+         "signed by another key), 4/8/16 goroutines released from a barrier, each executing a seeded list of 3-8 of 143 "
+         "operations with scripted randomness, and the same lists sequentially on a second cold object set (the twins) - AFTER the "
+         "concurrent phase in three rounds of four, BEFORE it in the fourth, so that what refused and valid calls leave behind in the "
+         "package or the process is part of the history of the replay in the one case and of the goroutines in the other; results must "
+         "be identical, round-trip laws of composite operations must hold, inputs that the schemes refuse whatever the state must be "
+         "refused in the replay, every goroutine must finish (bounded progress), "
+         "and the race detector must be silent; a call whose concurrent and sequential results differ is made a third time, alone, on a "
+         "third cold object set, and the report says which side it agrees with. REFUSED CALLS (25 operations, most of them ending with the "
+         "valid call on the same object): in five rounds of six a drawn share (1/8 - 3/4) of the calls of every goroutine - at least one, "
+         "possibly its first on the cold object - is one the library refuses, interleaved with the valid calls on the same shared objects, and "
+         "0-6 refused operations are made on the main goroutine before the barrier opens (on the twins: the shared objects stay cold): "
+         "SM2 decryption with C1 / C2 / C3 altered, the C1 or the C3||C2 of another message, truncated, unknown format octet, the other "
+         "splicing order, a ciphertext for another key, ASN.1 ciphertexts altered field by field or with damaged DER, messages of 1-6000 "
+         "bytes, on sm2p256v1 and on the legacy-curve path, altered key envelopes; SM2 verification with r or s altered / exchanged / 0 / n / "
+         "r+n, another hash, key, uid, damaged DER, (r,s) entry points; SM2 key exchange with an ephemeral key off the curve or a wrong "
+         "confirmation value for either side (then repeated with the right value and run to the end), shared key in both roles, also on "
+         "the legacy curve; ECDH peer encodings that are refused (off the curve, compressed, hybrid, infinity, short, x = p), refused "
+         "scalars, PublicKeyToECDH of a point off the curve, SM2ZA with an identifier of 8192 bytes; SM9 verification with h or S altered, "
+         "S another group element, other uid / hid / hash, damaged DER; SM9 decryption with C1 / C3 / C2 altered, truncated, another uid, "
+         "read as another encryption type (raw and ASN.1); SM9 key unwrapping of damaged / off-curve encapsulations (refused) and of "
+         "another group element or with another uid (another key: outcome compared); SM9 key exchange with a damaged ephemeral key or a "
+         "wrong confirmation value; Open with the tag, the ciphertext, the additional data or the nonce altered, one octet missing, "
+         "shorter than a tag - shared GCM (12- and 16-byte nonces) and CCM, messages and additional data below and above 128 bytes, and "
+         "AEADs made for the call by every GCM / CCM constructor - in every dispatch tier of the plan; constructors over the shared block "
+         "with refused sizes; CBC / ECB decryption over the shared block of altered ciphertexts + unpadding (three paddings; acceptance "
+         "and refusal both being outcomes); chain verification of certificates that do not chain against the shared pools, clones and the "
+         "parsed pool; the same on objects only the caller knows. A refusal compares as a refusal (class of the outcome and bytes returned "
+         "beside the error, never the error text; for chain verification the error type and reason code). Operations: first and steady use of the shared objects (sign, verify, "
          "encrypt, decrypt, wrap/unwrap, envelopes, seal/open, chain verification - plain and name-constrained leaves against the shared pools, their clones and the "
          "parsed pool, with VerifyOptions of eleven shapes (DNSName exact / wildcard / mixed case / IP / no match, KeyUsages "
          "sets, CurrentTime before, in and after validity, MaxConstraintComparisions), accepted chains and refusals both being "
@@ -50,11 +81,25 @@ PLAN = dict(
          "legacy curve, ecdh, sm9 sign master, sm9 encrypt master, block, pool, own objects, shared projective points). After a "
          "round the VALUE of every shared object (scalars, coordinates, encodings, marshalled points, pool subjects) must equal "
          "its value after the sequential replay. Then 3 (purego 2) first-use BURST cases per process: many cheap trials of one "
-         "object kind (projective points; sm2 key from NewPrivateKey/GenerateKey/FromECPrivateKey/parsed SEC 1; ecdh key from "
+         "object kind (projective points; sm2 key from NewPrivateKey/GenerateKey/FromECPrivateKey/parsed SEC 1: first signatures, or "
+         "first decryptions of valid, altered and foreign ciphertexts of up to 4000 bytes next to encryptions; ecdh key from "
          "NewPrivateKey/GenerateKey/sm2 ECDH(); sm9 sign and encrypt master generated or decoded with user key derived or "
-         "decoded; sm4 block; pool from PEM or parsed, plain or with a constrained root and intermediate of its own) - a new cold object per trial, 2-4 goroutines released by a spinning "
-         "barrier making its first calls at the same instant, the same calls sequentially on a twin, results and object value "
-         "compared. "
+         "decoded, the first unwrapping possibly a refused one; sm4 block; FIRST MODE CONSTRUCTION over a new sm4 block - always the first burst "
+         "of a process, 100 trials (50 with the software SM4): every goroutine calls the same constructor with the same parameters at the same instant (two trials of "
+         "three; neighbours differ in the third): NewGCM, NewGCMWithNonceSize, NewGCMWithTagSize, NewCCM and its three variants, CBC, CTR, "
+         "ECB, CFB, OFB, BC, HCTR, XTS and GB-XTS (through a block-making function that hands out the shared block), the four MACs, followed by "
+         "Seal / refused Open / Open or Crypt of 128-320 bytes -; pool from PEM or parsed, plain or with a constrained root and intermediate of its own, one "
+         "first verification in four being of a certificate that does not chain) - a new cold object per trial, 2-4 goroutines that live as long as the case (a fresh goroutine grows its stack inside its first "
+         "library call, which spreads the calls out), each drawing its parameters and data BEFORE the barrier, leaving a bare-spin "
+         "barrier within tens of nanoseconds of the others, then spinning for a drawn number of turns (offsets between the first calls "
+         "from nothing to a few microseconds) and making its call; the same calls sequentially on a twin - before the concurrent calls in "
+         "every other trial, after them in the others -, results and object value compared. Workload c20.bursts runs these bursts alone, "
+         "every kind in every process and the mode-construction kind three times, in builds WITHOUT the race detector (asm: avx2 in two "
+         "processes, noaes, noclmul): there a trial costs a tenth, and the goroutines of the mode-construction kind (3 or 4, 3 x 300 trials "
+         "per avx2 process, 3 x 150 elsewhere) are never parked - they poll for the next trial, because waking a parked goroutine goes through "
+         "the operating system and takes up to milliseconds on a busy machine, after which the goroutines do not leave the barrier together - "
+         "so that the calls really start within nanoseconds, which is what windows far below a microsecond need (the detector is blind to "
+         "them anyway when the writer is assembly and the flag atomic); the oracle there is the comparison with the twin alone. "
          "Distinct = class keys (configuration | round kind and goroutines / simultaneous first calls observed / completion "
          "order of the first four finishers / GOMAXPROCS, plus the first-use operations that were contended)",
     jobs=_jobs(),
@@ -62,6 +107,7 @@ PLAN = dict(
                  "schedules are those the Go scheduler produced under GOMAXPROCS 2/4/16 - not enumerated",
                  "a goroutine is reported as hung only if its call counter did not move for >= 14 s of wall time during which "
                  "the coordinator completed the sequential replay of the whole round and a solitary re-run of the stuck call",
+                 "c20.bursts (builds without the race detector) decides by result and object-value comparison only",
                  "purego build: the standard library's P-256 has no order inversion (crypto/elliptic panics), so NIST P-521 "
                  "takes the place of P-256 for the legacy-curve keys there"],
 )
@@ -74,11 +120,16 @@ CLAIM = dict(
          "process-wide singletons; objects derived from a shared parent while the parent is first used (user keys, public keys "
          "from accessors, ECDH conversions, re-constructed keys, pool clones, modes/AEADs/MACs over the shared block) are then "
          "used; key agreement is run to the end; every concurrent result is compared with a sequential replay of the same "
-         "deterministic call list, and the value of every shared object afterwards with its value after the replay; shared SM9 keys "
+         "deterministic call list (run after the concurrent phase or, in one round of four, before it; a differing call is made a third "
+         "time alone to say which side is wrong), and the value of every shared object afterwards with its value after the replay; calls "
+         "that the library REFUSES (altered / foreign / misread ciphertexts, signatures, confirmation values, peer keys, key encapsulations, "
+         "AEAD messages, padded messages, certificates that do not chain) are part of every goroutine's list in five rounds of six and are "
+         "made on the main goroutine before the barrier, a refusal comparing as a refusal; shared SM9 keys "
          "are present decoded and fresh from generation/derivation, group elements also in projective form (through the verif "
          "hook: the public key objects never hold one, their constructors normalise the point), and first-use bursts give "
-         "one-shot transitions (sync.Once, normalisation, lazy parsing, cached inverse) thousands of simultaneous first calls "
-         "per run; every goroutine must return (bounded progress, confirmed by the sequential replay and a "
+         "one-shot transitions (sync.Once, normalisation, lazy parsing, cached inverse, whatever a first mode construction caches in a "
+         "block) thousands of simultaneous first calls per run - also in builds without the detector (workload c20.bursts), where the calls "
+         "start within nanoseconds of each other and only the comparison with a twin used sequentially decides; every goroutine must return (bounded progress, confirmed by the sequential replay and a "
          "solitary re-run before it is reported), panics in goroutines are caught. The evidence reports how many rounds really "
          "had overlapping first-use calls, the round kinds and how many distinct completion orders were seen.",
     design_ref="DESIGN.md 6 (C20)",
